@@ -19,14 +19,15 @@ type enumConst struct {
 	Value uint64
 }
 type enumEntry struct {
-	Pkg, Name string
-	Bitmask   bool
-	Bound     int
-	Marshal   func(uint64) (string, error)
-	Unmarshal func(string) (uint64, error)
-	Consts    []enumConst
-	Labels    []enumConst // label text -> value it is the label of
-	Values    []enumConst // text -> value
+	Pkg, Name  string
+	Bitmask    bool
+	Bound      int
+	Marshal    func(uint64) (string, error)
+	MarshalRaw func(uint64) ([]byte, error) // the slice MarshalText returned, not a copy
+	Unmarshal  func(string) (uint64, error)
+	Consts     []enumConst
+	Labels     []enumConst // label text -> value it is the label of
+	Values     []enumConst // text -> value
 }
 
 // filled by zz_enums_gen.go (regenerated from /repo by harness/cmd/extract on every run)
@@ -219,11 +220,25 @@ func genC19(o *hx.Out, tier string) {
 			vst = strings.Join(vs, ",")
 		}
 		o.Add("edef", "ok", "edef", key, b2s(e.Bitmask), strconv.Itoa(e.Bound), lst, vst)
+		// the text of the previous value, as the slice MarshalText returned: it must still read the
+		// same after the next value was rendered (a caller may keep it)
+		var heldRaw []byte
+		heldTxt := ""
 		rt := func(class string, v uint64) {
 			impl := hx.Safe(func() string {
 				txt, err := e.Marshal(v)
 				if err != nil {
 					return "marshal-err"
+				}
+				if e.MarshalRaw != nil {
+					if heldRaw != nil && string(heldRaw) != heldTxt {
+						bad := "TEXT-OF-AN-EARLIER-CALL-CHANGED " + hx.HexS(heldTxt) + " became " + hx.HexS(string(heldRaw))
+						heldRaw = nil
+						return bad
+					}
+					if raw, err2 := e.MarshalRaw(v); err2 == nil {
+						heldRaw, heldTxt = raw, string(raw)
+					}
 				}
 				back, err := e.Unmarshal(txt)
 				if err != nil {
